@@ -128,7 +128,7 @@ theorem navigation_total (name snake : String) (id : Nat) (m : MsgDesc) : fieldS
   · simp
   · split
     · split
-      · unfold emit; split <;> (try split) <;> simp
+      · unfold emit; split <;> (try split) <;> (try split) <;> simp
       · simp
     · simp
     · simp
